@@ -4,6 +4,8 @@
 #   tools/mutcheck.sh <patch.diff> <ID> [tier]
 # Uses /tmp/vscratch (a copy of /verif whose harness points at /tmp/vscratch-repo).
 set -u
+# one run at a time: the scratch copies and their cargo target dir are shared between invocations
+exec 9>/tmp/vscratch.lock; flock 9
 PATCH="$(readlink -f "$1")"; ID="$2"; TIER="${3:-quick}"
 S=/tmp/vscratch; R=/tmp/vscratch-repo
 mkdir -p $S
